@@ -147,6 +147,8 @@ type Exec struct {
 	cacheHits   int
 	bounds      map[int]ival
 	linForms    map[int]linForm
+	oneShotBranch int
+	restarts      int
 }
 
 type obsRec struct {
@@ -183,6 +185,7 @@ func (ex *Exec) addCond(c *Term) {
 		return
 	}
 	ex.learnBounds(c)
+	ex.noteTrue(c)
 	if ex.pcPos < len(ex.pathCond) {
 		if ex.pathCond[ex.pcPos] != c {
 			panic(fmt.Sprintf("nondeterministic re-execution: path condition %d differs", ex.pcPos))
@@ -255,6 +258,12 @@ func (ex *Exec) choose(conds []*Term) int {
 			}
 		} else if v, ok := ex.known[c.id]; ok && !v {
 			ch.feas[i] = 0
+		} else if v, ok := ex.rangeDecide(c); ok {
+			if v {
+				ch.feas[i] = 1
+			} else {
+				ch.feas[i] = 0
+			}
 		} else if ex.journalOn && ex.job.MergeBlind {
 			ch.feas[i] = 1
 		} else if ex.cachedModelSatisfies(c) {
@@ -263,6 +272,20 @@ func (ex *Exec) choose(conds []*Term) int {
 		} else {
 			r, model := ex.inc.CheckWithModel(c, ex.tc.allVars())
 			ex.branchQ++
+			if ex.inc.dead && ex.restartInc() {
+				r, model = ex.inc.CheckWithModel(c, nil)
+			}
+			if r == "unknown" && !ex.inc.dead {
+				// the incremental back end gave up: decide the branch with fresh one-shot solvers
+				asserts := append(append([]*Term{}, ex.pathCond[:ex.pcPos]...), c)
+				sr := SolvePortfolio(asserts, collectVars(asserts), ex.job.Solvers, ex.job.BranchTimeoutS, false)
+				ex.oneShotBranch++
+				if sr.Verdict == "unsat" {
+					r = "unsat"
+				} else if sr.Verdict == "sat" {
+					r, model = "sat", sr.Model
+				}
+			}
 			if r == "unsat" {
 				ch.feas[i] = 0
 			} else {
@@ -1076,4 +1099,45 @@ func sortedParamNames(m map[string]int64) []string {
 	}
 	sort.Strings(ks)
 	return ks
+}
+
+// restartInc replaces a crashed incremental solver by a fresh process and re-establishes
+// the assertion stack of the current path prefix.
+func (ex *Exec) restartInc() bool {
+	if ex.journalOn || ex.restarts > 200 {
+		return false
+	}
+	ex.restarts++
+	ex.inc.Close()
+	ex.inc = NewIncSolver(ex.inc.name, ex.inc.tmoMs)
+	push := map[int]bool{}
+	for _, ch := range ex.trace {
+		if !ch.forced {
+			push[ch.pcIndex] = true
+		}
+	}
+	for i, c := range ex.pathCond[:ex.pcPos] {
+		if push[i] {
+			ex.inc.Push()
+		}
+		ex.inc.Assert(c)
+	}
+	// fix up recorded levels (they are positions in the same push sequence, so unchanged)
+	return !ex.inc.dead
+}
+
+// noteTrue records a condition (and its conjuncts) as holding on this path.
+func (ex *Exec) noteTrue(c *Term) {
+	if c.IsConst() {
+		return
+	}
+	ex.known[c.id] = true
+	switch c.op {
+	case "not":
+		ex.known[c.args[0].id] = false
+	case "and":
+		for _, a := range c.args {
+			ex.noteTrue(a)
+		}
+	}
 }
